@@ -79,10 +79,14 @@ def gen_history(rng, space=False, wrap=False):
     ev = []
     n = rng.choice([3, 4, 5, 6, 6, 7, 8])
     # most histories start by creating something and observing it, otherwise nothing interesting happens
-    while len(ev) < n:
+    steps = 0
+    while steps < n and len(ev) < 14:
+        steps += 1
         r = rng.random()
         i = rng.choice(pool)
         c = rng.randrange(ncli)
+        if steps == 2 and exists and rng.random() < 0.85:
+            i = rng.choice(sorted(exists)); r = 0.3          # an observation early on, otherwise little is persisted
         if not exists or r < 0.16:
             ev.append("c%d" % i); exists.add(i)
         elif r < 0.40:
